@@ -117,14 +117,14 @@ type Exec struct {
 	ghost      map[string]Value
 
 	// tasks
-	tasks      []*task
-	cur        *task
-	killed     bool
-	pathDone   chan struct{}
-	timers     []*timerObj
-	schedUsed  int
+	tasks       []*task
+	cur         *task
+	killed      bool
+	pathDone    chan struct{}
+	timers      []*timerObj
+	schedUsed   int
 	preemptions int
-	envActions []*Closure
+	envActions  []*Closure
 
 	// results
 	Violations     []*Violation
@@ -143,6 +143,8 @@ type Exec struct {
 	skipped        bool
 	shadow         map[interface{}]*shadowCell
 	strlenSeen     map[*Term]bool
+	cidAtoms       map[*Term][2]*Term
+	cidOrder       []*Term
 	axioms         int
 	atomicVC       map[*Value]vclock
 	harnessFnCache map[*ssa.Function]bool
@@ -282,6 +284,8 @@ func (ex *Exec) runOnePath() {
 	ex.pc = nil
 	ex.shadow = nil
 	ex.strlenSeen = nil
+	ex.cidAtoms = nil
+	ex.cidOrder = nil
 	ex.axioms = 0
 	ex.atomicVC = nil
 	ex.completed = false
